@@ -7,6 +7,6 @@ CONSTANTS
   Stops = {"stop"}
 INVARIANTS
   AtMostOnce ExactlyOnceAtQuiescence DropOnlyWhenStopped SoftStopOnlyWhenIdle WaitMeansDone SingleWorkerFIFO MutexOK NoRace
-  AbsAtMostOnce AbsWaitMeansDone AbsEnd AbsNoUseAfterReturn
+  AbsAtMostOnce AbsWaitMeansDone AbsEnd AbsNoUseAfterReturn AbsSoftStopKeepsFollowUps
 POSTCONDITION Accepted
 CHECK_DEADLOCK FALSE
